@@ -65,9 +65,16 @@ void Serializer::serializeTree(const Tree& t)
 
 void Serializer::serializeShape(const Archive::Shape& s)
 {
+    // The format has no remap / apply, so the tree is stored flattened.
+    // Flatten once and keep the result alive for the lifetime of `ids`,
+    // which is keyed by node address (Tree::walk() on an unflattened tree
+    // returns pointers into a temporary that is gone before we use them).
+    flattened.push_back(s.tree.flatten());
+    const Tree& tree = flattened.back();
+
     // 'T' indicate a fully-serialized tree;
     // 't' indicates an id pointing to an earlier tree.
-    const bool already_stored = ids.find(s.tree.id()) != ids.end();
+    const bool already_stored = ids.find(tree.id()) != ids.end();
     out.put(already_stored ? 't' : 'T');
 
     serializeString(s.name);
@@ -75,11 +82,11 @@ void Serializer::serializeShape(const Archive::Shape& s)
 
     if (already_stored)
     {
-        serializeBytes(ids.at(s.tree.id()));
+        serializeBytes(ids.at(tree.id()));
     }
     else
     {
-        serializeTree(s.tree);
+        serializeTree(tree);
         out.put(END_OF_ITEM);
     }
     for (auto& v : s.vars)
